@@ -44,18 +44,19 @@ Proof.
   apply negb_true_iff in H1. apply path_eqb_neq in H1. contradiction.
 Qed.
 
-Fixpoint clean_prun_b (fx : fixes) (o : sid) (pw : pworld) (evs : list event) : bool :=
+Fixpoint ok_prun_b (fx : fixes) (o : sid) (pw : pworld) (evs : list event) : bool :=
   match evs with
   | [] => true
-  | ev :: r => ev_clean_b o (fst (lower_event pw ev)) && clean_prun_b fx o (pworld_step fx pw ev) r
+  | ev :: r => ev_ok_b o (fst (lower_event pw ev)) && ev_clean_b o (fst (lower_event pw ev)) && ok_prun_b fx o (pworld_step fx pw ev) r
   end.
 
-Lemma clean_prun_b_spec : forall fx o evs pw, clean_prun_b fx o pw evs = true -> clean_prun fx o pw evs.
+Lemma ok_prun_b_spec : forall fx o evs pw, ok_prun_b fx o pw evs = true -> ok_prun fx o pw evs.
 Proof.
-  induction evs as [|ev evs IH]; intros pw H; [exact I|]. cbn [clean_prun_b clean_prun] in *.
-  apply andb_true_iff in H as [H1 H2]. split; [now apply ev_clean_b_one|now apply IH].
+  induction evs as [|ev evs IH]; intros pw H; [exact I|]. cbn [ok_prun_b ok_prun] in *.
+  apply andb_true_iff in H as [H1 H2]. apply andb_true_iff in H1 as [H0 H1].
+  split; [now apply ev_ok_b_one|split; [now apply ev_clean_b_one|now apply IH]].
 Qed.
 
 Example wire_premises_satisfiable :
-  wf_prun_b all_fixed empty_pworld exw = true /\ forallb (ev_ok_b 0) exw = true /\ clean_prun_b all_fixed 0 empty_pworld exw = true.
+  wf_prun_b all_fixed empty_pworld exw = true /\ ok_prun_b all_fixed 0 empty_pworld exw = true.
 Proof. vm_compute. repeat split; reflexivity. Qed.
